@@ -14,6 +14,8 @@ package main
 
 import (
 	"bytes"
+	"debug/elf"
+	"encoding/binary"
 	"fmt"
 	"os"
 	"path/filepath"
@@ -191,6 +193,73 @@ func binutilsPart(rounds int) {
 	}
 }
 
+const a2lScript = `#!/bin/sh
+while read a; do
+  echo "0x$a"
+  if [ "$a" = "ffffffffffffffff" ]; then echo '??'; echo '??:0'; else echo "s$a"; echo "src.c:7"; fi
+done
+`
+
+// several goroutines symbolizing through ONE addr2line-backed ObjFile: the tool is a line-oriented pipe, so a
+// query and its sentinel must not interleave with another caller's; every answer must be the caller's own
+func a2lPart(rounds int) {
+	dir, err := os.MkdirTemp("", "c20-a2l-")
+	if err != nil {
+		run.Infra(err.Error())
+		return
+	}
+	defer os.RemoveAll(dir)
+	os.WriteFile(filepath.Join(dir, "addr2line"), []byte(a2lScript), 0o755)
+	// a minimal ET_EXEC file: header + one executable PT_LOAD at vaddr 0
+	var b bytes.Buffer
+	h := elf.Header64{Type: uint16(elf.ET_EXEC), Machine: uint16(elf.EM_X86_64), Version: 1, Phoff: 64, Ehsize: 64, Phentsize: 56, Phnum: 1, Shentsize: 64}
+	copy(h.Ident[:], []byte{0x7f, 'E', 'L', 'F', byte(elf.ELFCLASS64), byte(elf.ELFDATA2LSB), 1})
+	binary.Write(&b, binary.LittleEndian, h)
+	binary.Write(&b, binary.LittleEndian, elf.Prog64{Type: uint32(elf.PT_LOAD), Flags: uint32(elf.PF_R | elf.PF_X), Off: 0, Vaddr: 0, Filesz: 4096, Memsz: 65536, Align: 4096})
+	exe := filepath.Join(dir, "bin")
+	os.WriteFile(exe, append(b.Bytes(), make([]byte, 4096-b.Len())...), 0o755)
+	oldPath := os.Getenv("PATH")
+	os.Setenv("PATH", dir) // no llvm-symbolizer, no nm: the plain addr2line path
+	defer os.Setenv("PATH", oldPath)
+	bu := &binutils.Binutils{}
+	bu.SetTools("addr2line:" + dir)
+	f, err := bu.Open(exe, 0x10000, 0x20000, 0, "")
+	if err != nil {
+		run.Note("addr2line part skipped: " + err.Error())
+		return
+	}
+	defer f.Close()
+	if fr, err := f.SourceLine(0x10010); err != nil || len(fr) == 0 || fr[0].Func != "s10" {
+		run.Note(fmt.Sprintf("addr2line part skipped: the scripted tool does not answer as expected: %v %v", fr, err))
+		return
+	}
+	for round := 0; round < rounds; round++ {
+		var wg sync.WaitGroup
+		for g := 0; g < 6; g++ {
+			wg.Add(1)
+			go func(g int) {
+				defer wg.Done()
+				defer func() {
+					if x := recover(); x != nil {
+						run.Violate("binutils", "addr2line-panic", fmt.Sprint(x), nil, nil)
+					}
+				}()
+				for k := 0; k < 40; k++ {
+					q := uint64(0x100 + g*0x1000 + k*8)
+					fr, err := f.SourceLine(0x10000 + q)
+					want := fmt.Sprintf("s%x", q)
+					if err != nil || len(fr) != 1 || fr[0].Func != want {
+						run.Violate("binutils", "addr2line-crossed-answers", fmt.Sprintf("SourceLine(%#x) on a shared ObjFile returned %v %v under concurrency; alone it returns [%s]", 0x10000+q, fr, err, want), nil, nil)
+						return
+					}
+				}
+			}(g)
+		}
+		wg.Wait()
+		run.Count(fmt.Sprintf("addr2line|%d", round%4))
+	}
+}
+
 func main() {
 	run = vlib.NewRun("C20")
 	n := run.N
@@ -199,6 +268,7 @@ func main() {
 	}
 	encodePart(n)
 	binutilsPart(n / 4)
+	a2lPart(n / 2)
 	run.Sample(map[string]interface{}{"encode_rounds": n, "binutils_rounds": n / 4})
-	run.Finish("concurrent mixes: rounds of 2..7 goroutines each doing Write / WriteUncompressed / Copy on one shared 400-sample profile with the verif gate sleeping between preEncode and marshal, every output compared with the sequential bytes; 2 goroutines symbolizing through an ObjFile opened earlier and 3 opening fresh ObjFiles (first SourceLine, Symbols) while a sixth toggles fast symbolization and re-selects the tools, every answer compared with the sequential answers under the two configurations; all under the race detector; non-trivial = distinct operation mix")
+	run.Finish("concurrent mixes: rounds of 2..7 goroutines each doing Write / WriteUncompressed / Copy on one shared 400-sample profile with the verif gate sleeping between preEncode and marshal, every output compared with the sequential bytes; 2 goroutines symbolizing through an ObjFile opened earlier and 3 opening fresh ObjFiles (first SourceLine, Symbols) while a sixth toggles fast symbolization and re-selects the tools, every answer compared with the sequential answers under the two configurations; 6 goroutines x 40 queries through one ObjFile backed by a scripted addr2line pipe, every answer must be the caller's own; all under the race detector; non-trivial = distinct operation mix")
 }
